@@ -60,7 +60,7 @@ def _case(draw, tier):
         elif k == "clear":
             ops.append(["clear"])
         else:
-            ops.append(["query", c, draw(st.sampled_from(["let", "block", "block_entity"]))])
+            ops.append(["query", c, draw(st.sampled_from(["let", "block", "block_entity", "rule_block", "rule_block_entity"]))])
     ops.append(["query", draw(st.integers(0, len(nodes) - 1)), "let"])
     return {"nodes": nodes, "ops": ops}
 
@@ -170,6 +170,12 @@ def check(case) -> Outcome:
                 cls = classes[op[1]]
                 if op[2] == "let":
                     q = an(entity(let(cls)))
+                elif op[2] == "rule_block":
+                    with rule_mode():
+                        q = an(cls())            # declared inside rule_mode(): resolved from the registry at evaluation
+                elif op[2] == "rule_block_entity":
+                    with rule_mode():
+                        q = an(entity(cls()))
                 elif op[2] == "block":
                     with symbolic_mode():
                         q = an(cls())
